@@ -5,6 +5,7 @@ not depend on `Props/C17.lean` (a broken obligation of C17, e.g. one of its sour
 Same statements as the first two clauses of `T_C17_line_on` and as `T_C17_translation`.
 -/
 import CBV.Lemmas.C17
+import CBV.Lemmas.C17Unique
 import Mathlib.Algebra.Order.Field.Basic
 import Mathlib.Tactic.FieldSimp
 import Mathlib.Tactic.Ring
@@ -31,5 +32,43 @@ theorem c17_line_on (p1 p2 : V3) (s t : Rat) (hs : s ≠ 0) (hw : s * s = V3.dot
 /-- `TranslationLink`: follower − leader is the vector the link was built with -/
 theorem c17_translation (l0 f0 l1 : V3) : translationLink l0 f0 l1 - l1 = f0 - l0 := by
   apply V3.ext' <;> c17_unfold <;> ring
+
+/-! ### round 6c: the other clamp / link kinds of C17's model -/
+
+/-- `PlaneClamp` (and a plane `ParametricSurfaceClamp`): the plane equation holds for all parameters -/
+theorem c17_plane_on (point n u v : V3) (a b : Rat) (hu : V3.dot u n = 0) (hv : V3.dot v n = 0) :
+    V3.dot (planeClamp point u v a b - point) n = 0 ∧ V3.dot (surfPlane point u v a b - point) n = 0 := by
+  have h1 : V3.dot (planeClamp point u v a b - point) n = a * V3.dot u n + b * V3.dot v n := by
+    c17_unfold; ring
+  have h2 : V3.dot (surfPlane point u v a b - point) n = a * V3.dot u n + b * V3.dot v n := by
+    simp only [surfPlane]; c17_unfold; ring
+  rw [h1, h2, hu, hv]; constructor <;> ring
+
+/-- a `CurveClamp` on a `LineCurve` stays on the line through the curve's end points -/
+theorem c17_curveLine_on (p1 p2 : V3) (t : Rat) : V3.cross (curveLine p1 p2 t - p1) (p2 - p1) = V3.zero := by
+  apply V3.ext' <;> simp only [curveLine] <;> c17_unfold <;> ring
+
+/-- a turn about the axis `(o, a)` (`RadialClamp`, `RotationLink`) keeps the height along the axis and the distance
+    from the axis point — hence the radius about the axis -/
+theorem c17_rot_keeps (w : Rat) (a o p : V3) (hN : w * w + V3.dot a a ≠ 0) :
+    V3.dot (rotP w a o p - o) a = V3.dot (p - o) a ∧ V3.norm2 (rotP w a o p - o) = V3.norm2 (p - o) := by
+  have h1 : rotP w a o p - o = rotLin w a (p - o) := by unfold rotP; exact add_sub_cancel' _ _
+  rw [h1]
+  constructor
+  · have := rotLin_dot w a (p - o) a hN
+    rwa [rotLin_axis] at this
+  · exact rotLin_dot w a _ _ hN
+
+/-- `SymmetryLink`: the midpoint of leader and follower lies on the plane and the connecting vector is parallel to
+    the normal (first two clauses of `T_C17_symmetry`) -/
+theorem c17_symmetry (n o l : V3) (hn : V3.dot n n ≠ 0) :
+    V3.dot (V3.smul (1 / 2) (l + symmetryLink n o l) - o) n = 0 ∧ V3.cross (symmetryLink n o l - l) n = V3.zero := by
+  refine ⟨?_, ?_⟩
+  · simp only [V3.dot] at hn
+    c17_unfold
+    generalize hNd : n.x * n.x + n.y * n.y + n.z * n.z = N at hn ⊢
+    field_simp
+    rw [← hNd]; ring
+  · apply V3.ext' <;> c17_unfold <;> ring
 
 end CBV.C13
